@@ -282,7 +282,7 @@ template <typename Scalar>
 Scalar MASA::burgers_equation<Scalar>::eval_exact_v(Scalar x,Scalar y)
 {
   Scalar v_an;
-  v_an = v_0 + v_x * sin(a_vx * pi * x / L) + v_y * cos(a_vy * pi * y / L);
+  v_an = v_0 + v_x * cos(a_vx * pi * x / L) + v_y * sin(a_vy * pi * y / L);
   return v_an;
 }
 
@@ -298,7 +298,7 @@ template <typename Scalar>
 Scalar MASA::burgers_equation<Scalar>::eval_exact_v(Scalar x,Scalar y, Scalar t)
 {
   Scalar v_an;
-  v_an = v_0 + v_x * sin(a_vx * pi * x / L) + v_y * cos(a_vy * pi * y / L) + v_t * cos(a_vt * pi * t / L);
+  v_an = v_0 + v_x * cos(a_vx * pi * x / L) + v_y * sin(a_vy * pi * y / L) + v_t * sin(a_vt * pi * t / L);
   return v_an;
 }
 
